@@ -171,9 +171,11 @@ def run(ctx):
                            {"base": res[0][1], "respelled": text, "layout": lay, "base_results": base[:2], "respelled_results": r[:2]}, case={"schema": text})
     # corpus: pairs (base spelling, re-spelled) that once differed
     import os
-    cf = os.path.join(vc.ROOT, "corpus", "C13", "fixed-empty-comment.json")
-    if os.path.exists(cf):
-        pairs = json.load(open(cf))
+    pairs = []
+    for fn in sorted(os.listdir(os.path.join(vc.ROOT, "corpus", "C13"))):
+        if fn.startswith("fixed-") and fn.endswith(".json"):
+            pairs += json.load(open(os.path.join(vc.ROOT, "corpus", "C13", fn)))
+    if pairs:
         co = vc.impl(["schema"], [json.dumps({"schema": t, "ops": [["check"], ["ast"]]}) for pr in pairs for t in (pr["base"], pr["respelled"])])
         for k, pr in enumerate(pairs):
             a, b = json.loads(co[2 * k]), json.loads(co[2 * k + 1])
@@ -212,6 +214,9 @@ def run(ctx):
             q = rng.random() < 0.3
             texts.append("%s // {or: [%s]}" % (ex, ", ".join("{%s}" % ", ".join(('"%s": %s' if q else "%s: %s") % kv for kv in rs) for rs in combo)))
         ogroups.append(texts)
+    # the enum rule inside a rule-set, bare, quoted and with a blank before the colon
+    ogroups.append(['1 // {or: [{enum: [1, 2]}, {type: "string"}]}', '1 // {or: [{"enum": [1, 2]}, {type: "string"}]}', '1 // {or: [{enum : [1, 2]}, {type: "string"}]}',
+                    '1 // {or: [{ "enum" : [1, 2] }, {"type": "string"}]}'])
     oprobes = ["5", "0", "-1", "-5", "10", "11", '"x"', '""', '"0123456789"', "true", "0.5", "0.25", "1.234"]
     olines = [json.dumps({"schema": t, "ops": [["check"], ["ast"]] + [["validate", p] for p in oprobes]}) for g in ogroups for t in g]
     oouts = vc.impl_parallel(["schema"], olines)
@@ -234,7 +239,7 @@ def run(ctx):
         for t, r in zip(g[1:], rs[1:]):
             what = None
             if r[0] != base[0]:
-                what = "Check verdict changes with the order of the rules inside an or rule-set: %s vs %s" % (base[0], r[0])
+                what = "Check verdict changes with the order or the spelling of the rules inside an or rule-set: %s vs %s" % (base[0], r[0])
             elif r[0] == "ok":
                 if r[1].startswith("A:") and base[1].startswith("A:") and json.dumps(canon_props(strip_comments(json.loads(base[1][2:]))), sort_keys=True) != json.dumps(canon_props(strip_comments(json.loads(r[1][2:]))), sort_keys=True):
                     what = "the AST (rule order aside) changes with the order of the rules inside an or rule-set"
